@@ -33,6 +33,17 @@ DirMatch(pat, s) ==
 
 NoHit == "none"
 
+WildHit(e, key) ==
+    \E d \in 1..Len(key) :
+        /\ key[d] = "#" /\ \A j \in 1..(d - 1) : key[j] # "#"
+        /\ LET host == SubSeq(key, 1, d - 1)
+               path == SubSeq(key, d + 1, Len(key))
+               nl   == Len(host) - Len(e.w)
+           IN /\ nl >= 1
+              /\ SubSeq(host, nl + 1, Len(host)) = e.w
+              /\ \A j \in 1..nl : host[j] # "."
+              /\ IF e.re = "closed" THEN path = e.p ELSE IsPrefixSeq(e.p, path)
+
 (* one match file: [method, lower, entries], entries = sequence of [k, v] *)
 LookupFile(f, key0) ==
     LET key == IF f.lower THEN Lower(key0) ELSE key0
@@ -48,6 +59,12 @@ LookupFile(f, key0) ==
                                                               \/ (Len(f.entries[i].k) = Len(f.entries[j].k) /\ i <= j)].v
       [] f.method = "dir" ->
             LET hit == {i \in 1..n : DirMatch(f.entries[i].k, key)} IN
+            IF hit = {} THEN NoHit ELSE f.entries[CHOOSE i \in hit : \A j \in hit : i <= j].v
+      [] f.method = "reg" ->
+            (* map_reg: the first entry, in file order, whose regex finds the key.  Only the regexes the controller writes for
+               wildcard hostnames are interpreted (cfgnf: ^[^.]+<suffix>#<path>, closed by $ or open): one label, the suffix,
+               "#", then the path text -- and, when the regex is open, anything after it *)
+            LET hit == {i \in 1..n : "w" \in DOMAIN f.entries[i] /\ f.entries[i].w # <<>> /\ WildHit(f.entries[i], key)} IN
             IF hit = {} THEN NoHit ELSE f.entries[CHOOSE i \in hit : \A j \in hit : i <= j].v
       [] OTHER -> NoHit
 
